@@ -132,6 +132,8 @@ pub struct Profile {
     pub cleanup_pct: u32,
     /// percent of histories whose text is ASCII only
     pub ascii_pct: u32,
+    /// percent of histories generated in lock-step shape (edit, sync everybody, edit, ...): sequential, no concurrency
+    pub lockstep_pct: u32,
 }
 
 pub const C_TINS: usize = 0;
@@ -183,6 +185,7 @@ impl Profile {
             max_hostility: 2,
             big_ids: true,
             cleanup_pct: 100,
+            lockstep_pct: 0,
             ascii_pct: 0,
         }
     }
@@ -331,6 +334,19 @@ pub fn gen_program(rng: &mut Rng, p: &Profile) -> Program {
         p.w_txn, p.w_deliver, p.w_merge, p.w_relay, p.w_gc, p.w_snap, p.w_restore, p.w_sticky, p.w_syncall,
         p.w_recsv, p.w_probe,
     ];
+    if rng.u32(0..100) < p.lockstep_pct {
+        for _ in 0..nsteps {
+            let r = rng.u8(0..n);
+            let k = rng.usize(1..4);
+            steps.push(Step::Txn { r, calls: (0..k).map(|_| gen_call(rng, p)).collect() });
+            if rng.u8(0..6) == 0 {
+                steps.push(Step::Gc { r: rng.u8(0..n), ds: rng.bool() });
+            }
+            steps.push(Step::SyncAll);
+        }
+        let ascii = rng.u32(0..100) < p.ascii_pct;
+        return Program { cfg, steps, ascii };
+    }
     for _ in 0..nsteps {
         let r = rng.u8(0..n);
         let step = match weighted(rng, &w) {
